@@ -15,7 +15,9 @@ RULE = ("(rulebook, ordering, vendor, old, new_1..new_k): random rulebooks over 
         " non-trivial = the first patch has >=3 commands incl. a nested one; distinct = distinct case "
         "; plus kind=shipped: the SHIPPED rulebooks of huawei/cisco/arista (rule and ordering texts with the vendor functions of "
         "the common kinds), configurations from the rows of the shipped corpus whose rules use default/undo_redo/permanent logic "
-        "and the default diff logic, chains of 1-2 steps with changed numbers, real code and device specification only")
+        "and the default diff logic, chains of 1-2 steps with changed numbers, real code and device specification only"
+        "; plus kind=ordblock: a QoS-policy rulebook whose %ordered rule owns BLOCKS with child lines; chains of 1-3 steps that "
+        "reorder/insert/drop blocks while child lines change value under the same (rule,key), appear and vanish (model-compared)")
 TRUSTED_BASE = [
     "Lean 4.33 kernel; axioms per theorem listed (subset of propext, Classical.choice, Quot.sound)",
     "Spec/Device.lean (the device 'holding one line per rule and key') is a SPECIFICATION written for this property; its "
@@ -44,6 +46,7 @@ def shards(tier, seed):
         out += [dict(kind="small", part=i, parts=32) for i in range(32)]
     # the SHIPPED rulebooks (rule texts, ordering texts, vendor functions of the common kinds), harness/c01shipped.py
     out += [dict(kind="shipped", seed=seed * 100 + i, n=150 if tier == "quick" else 3000) for i in range(16)]
+    out += [dict(kind="ordblock", seed=seed * 100 + 50 + i, n=100 if tier == "quick" else 3000) for i in range(4)]
     return out
 
 
@@ -57,6 +60,11 @@ def gen(desc):
             c["targets"] = [c.pop("new")]
             yield c
         return
+    if desc.get("kind") == "ordblock":
+        rng = random.Random(desc["seed"])
+        for _ in range(desc["n"]):
+            yield gen_ordblock(rng)
+        return
     rng = random.Random(desc["seed"])
     for _ in range(desc["n"]):
         c = rbgen.gen_case(rng)
@@ -68,6 +76,53 @@ def gen(desc):
             targets.append(rbgen.mutate_cfg(rng, targets[-1], rtree, one_per_key=True))
         c["targets"] = targets
         yield c
+
+
+ORDBLOCK_PTEXT = "policy *\n    classifier *  %ordered\n        car *\n        remark *\n        filter\n    statistics\n"
+
+
+def gen_ordblock(rng):
+    """blocks of an %ordered rule that carry child lines (a QoS policy with an ordered classifier list): steps reorder,
+    insert and drop blocks WHILE child lines of the same blocks change value under the same (rule, key), appear and vanish -
+    the combination where the patch logic of the block (common.ordered: undo + re-create a moved block) meets make_pre's
+    grouping of a child's removed and added row under one key"""
+    names = ["c1", "c2", "c3", "c4", "c5"]
+
+    def body():
+        out = []
+        if rng.random() < 0.7:
+            out.append(["car cir %d" % rng.choice([100, 150, 200]), []])
+        if rng.random() < 0.5:
+            out.append(["remark dscp %s" % rng.choice(["af11", "ef"]), []])
+        if rng.random() < 0.3:
+            out.append(["filter", []])
+        return out
+
+    def step(blocks):
+        blocks = [[r, [list(x) for x in ch]] for r, ch in blocks]
+        for b in blocks:                                   # child lines: value changes under the same key, add, drop
+            if rng.random() < 0.5:
+                b[1] = body()
+        if blocks and rng.random() < 0.4:
+            blocks.pop(rng.randrange(len(blocks)))
+        if rng.random() < 0.5:
+            free = [n for n in names if all(r != "classifier " + n for r, _ in blocks)]
+            if free:
+                blocks.insert(rng.randint(0, len(blocks)), ["classifier " + rng.choice(free), body()])
+        if len(blocks) > 1 and rng.random() < 0.6:
+            i, j = rng.sample(range(len(blocks)), 2)
+            blocks[i], blocks[j] = blocks[j], blocks[i]
+        return blocks
+
+    def cfg(blocks):
+        return [["policy p1", [list(b) for b in blocks] + ([["statistics", []]] if rng.random() < 0.3 else [])]]
+    blocks = [["classifier " + n, body()] for n in rng.sample(names, rng.randint(1, 4))]
+    old = cfg(blocks)
+    targets = []
+    for _ in range(rng.randint(1, 3)):
+        blocks = step(blocks)
+        targets.append(cfg(blocks))
+    return dict(ptext=ORDBLOCK_PTEXT, otext="", vendor=rng.choice(VENDORS), old=old, targets=targets)
 
 
 def restricted(tree, rules):
@@ -397,6 +452,8 @@ def stats(case, r):
         from harness import c01shipped
         return c01shipped.stats(case, r)
     lab = ["vendor=" + case["vendor"], "chain=%d" % len(case["targets"])]
+    if case["ptext"] == ORDBLOCK_PTEXT:
+        lab.append("family=ordered-blocks-with-children")
     rb = rbgen.compile_rb(case["ptext"], case["otext"], case["vendor"])
     lab.append("in-domain" if in_domain(case, rb["patching"]) else "several-rows-per-key(out of domain)")
     s = r["full"][0] if r["full"] else {}
